@@ -18,6 +18,10 @@
 //   ops  : applied afterwards, left to right: c = replace the key by its clone, h = call get_hash()
 // stdout: one line per case:
 //     k <hashed-before 0/1> <hash-consistent 0/1> <hash-class> <events> ; ... ; e <rows of 0/1> ; c <rows of <=>> ; x <aux 0/1>
+//       ; xe <m> <m> <m> <m> ; xc <m> <m> <m> <m>
+//   e / c: == and cmp of the keys AS BUILT (observed before anything forces a hash: static/const-built keys are
+//   still un-hashed); xe / xc: the same matrices for twin x twin, key x twin, as-built clone x hashed key,
+//   hashed x hashed (twin = same content rebuilt the other way: un-hashed static <-> from_parts)
 //   events: the exact sequence of Hasher calls made by <Key as Hash>::hash: w<hex> = write(bytes),
 //           b<hex2> = write_u8, u<dec> = write_usize, ?<name> = any other write_* method
 //   hash-class of key i = smallest j with get_hash(key j) == get_hash(key i)
@@ -287,11 +291,20 @@ fn run_case(line: &str) -> String {
         }
     }
     let built: Vec<Built> = keys.split('|').map(|s| build(s.trim(), &ctx)).collect();
-    let n = built.len();
     let mut out: Vec<String> = Vec::new();
     let mut hashes: Vec<u64> = Vec::new();
     let mut aux = true;
-    for b in &built {
+    // ---- stage 0: nothing below forces a hash; every key is in the memo state its construction left it in
+    let keys: Vec<&Key> = built.iter().map(|b| &b.key).collect();
+    let twins: Vec<Key> = built.iter().map(twin_of).collect();
+    let twin_refs: Vec<&Key> = twins.iter().collect();
+    let as_built: Vec<Key> = keys.iter().map(|k| (*k).clone()).collect(); // clones carrying the as-built memo state
+    let as_built_refs: Vec<&Key> = as_built.iter().collect();
+    let m0 = matrices(&keys, &keys, &mut aux);
+    let mt = matrices(&twin_refs, &twin_refs, &mut aux);
+    let mx = matrices(&keys, &twin_refs, &mut aux);
+    // ---- stage 1: per key; forces get_hash() on every key
+    for (b, twin) in built.iter().zip(twins.iter()) {
         let k = &b.key;
         let hashed0 = hashed_flag(k);
         let mut rec = Rec::default();
@@ -326,21 +339,50 @@ fn run_case(line: &str) -> String {
         aux &= k.name() == b.name && got == b.labels && pre_clone == *k && post_clone == *k;
         let (kn, ls) = k.clone().into_parts();
         aux &= kn.as_str() == b.name && ls.len() == b.labels.len();
+        // the differently built twin has the same content: same Hash feed, same get_hash(), equal both ways
+        let mut rect = Rec::default();
+        twin.hash(&mut rect);
+        aux &= rect.ev == rec.ev && twin.get_hash() == h1 && *twin == *k && *k == *twin && hashed_flag(twin);
         let cls = hashes.iter().position(|x| *x == h1).unwrap_or(hashes.len());
         hashes.push(h1);
         out.push(format!("k {} {} {} {}", hashed0 as u8, ok as u8, cls, rec.ev.join(",")));
     }
+    // ---- stage 2: the same comparisons with the hash forced on the right operand only, then on both
+    let m1 = matrices(&as_built_refs, &keys, &mut aux);
+    let m2 = matrices(&keys, &keys, &mut aux);
+    out.push(format!("e {}", m0.0));
+    out.push(format!("c {}", m0.1));
+    out.push(format!("x {}", aux as u8));
+    out.push(format!("xe {} {} {} {}", mt.0, mx.0, m1.0, m2.0));
+    out.push(format!("xc {} {} {} {}", mt.1, mx.1, m1.1, m2.1));
+    out.join(" ; ")
+}
+
+// the same name and labels rebuilt the OTHER way: a key that carries a hash gets a never-hashed twin from
+// from_static_parts on fresh static storage, a never-hashed key gets a from_parts twin on owned strings (hashed at birth)
+fn twin_of(b: &Built) -> Key {
+    if hashed_flag(&b.key) {
+        let ls: Vec<Label> = b.labels.iter().map(|(k, v)| Label::from_static_parts(leak(k), leak(v))).collect();
+        Key::from_static_parts(leak(&b.name), Box::leak(ls.into_boxed_slice()))
+    } else {
+        let ls: Vec<Label> = b.labels.iter().map(|(k, v)| Label::new(k.clone(), v.clone())).collect();
+        Key::from_parts(b.name.clone(), ls)
+    }
+}
+
+// == and cmp of left[i] against right[j] for all i, j (rows joined by '/'); the derived operators must agree
+fn matrices(left: &[&Key], right: &[&Key], aux: &mut bool) -> (String, String) {
     let mut erows = Vec::new();
     let mut crows = Vec::new();
-    for i in 0..n {
+    for a in left {
         let mut e = String::new();
         let mut c = String::new();
-        for j in 0..n {
-            let (a, b) = (&built[i].key, &built[j].key);
+        for b in right {
+            let (a, b): (&Key, &Key) = (a, b);
             let eq = a == b;
             let cm = a.cmp(b);
-            aux &= (a != b) == !eq && a.partial_cmp(b) == Some(cm);
-            aux &= (a < b) == (cm == std::cmp::Ordering::Less) && (a >= b) == (cm != std::cmp::Ordering::Less);
+            *aux &= (a != b) == !eq && a.partial_cmp(b) == Some(cm);
+            *aux &= (a < b) == (cm == std::cmp::Ordering::Less) && (a >= b) == (cm != std::cmp::Ordering::Less);
             e.push(if eq { '1' } else { '0' });
             c.push(match cm {
                 std::cmp::Ordering::Less => '<',
@@ -351,10 +393,7 @@ fn run_case(line: &str) -> String {
         erows.push(e);
         crows.push(c);
     }
-    out.push(format!("e {}", erows.join("/")));
-    out.push(format!("c {}", crows.join("/")));
-    out.push(format!("x {}", aux as u8));
-    out.join(" ; ")
+    (erows.join("/"), crows.join("/"))
 }
 
 fn main() {
